@@ -270,8 +270,24 @@ impl Machine for M03 {
                     AnyFrame::Dyn(x) => x.with(|p| read_props(p, nk)),
                     AnyFrame::Opt(x) => x.with(|p| read_props(p, nk)),
                 };
+                // a panic inside the callback, caught on the spot, must not cost the frame anything
+                let with_panic = |fr: &mut AnyFrame| {
+                    let _ = catching(|| match fr {
+                        AnyFrame::Plain(x) => x.with(|_| panic!("probe")),
+                        AnyFrame::Ref(x) => x.with(|_| panic!("probe")),
+                        AnyFrame::Dyn(x) => x.with(|_| panic!("probe")),
+                        AnyFrame::Opt(x) => x.with(|_| panic!("probe")),
+                    });
+                };
+                with_panic(&mut fr);
+                let again = match &mut fr {
+                    AnyFrame::Plain(x) => x.with(|p| read_props(p, nk)),
+                    AnyFrame::Ref(x) => x.with(|p| read_props(p, nk)),
+                    AnyFrame::Dyn(x) => x.with(|p| read_props(p, nk)),
+                    AnyFrame::Opt(x) => x.with(|p| read_props(p, nk)),
+                };
                 self.put_frame(f, fr);
-                reply(json!({"sees": sees}));
+                reply(json!({"sees": sees, "sees_after_panic": again}));
                 None
             }
             "enter" => {
@@ -388,6 +404,58 @@ impl Machine for M03 {
         }
         json!(out)
     }
+
+    /// The thread that has just acted also observes from *inside* callbacks: for the instance
+    /// the step was about and one more (rotating), the ambient properties are read
+    ///   - nested: inside `with_current(|outer| ..)` another `with_current(|inner| ..)`, a frame
+    ///     opened there (`Frame::current`, then `with`), and an event emitted there;
+    ///   - after a panic raised inside a `with_current` callback and caught on the spot.
+    /// All of them are program points like any other: they must show Visible.
+    fn observe_acting(&'static self, step: &Value) -> Value {
+        let nk = NKEYS.load(Ordering::Relaxed) as usize;
+        let salt = self.salt();
+        let n = self.insts.len();
+        let mut which: Vec<usize> = Vec::new();
+        if let Some(c) = step["c"].as_u64() {
+            which.push(c as usize - 1);
+        }
+        which.push((salt as usize + step["f"].as_u64().unwrap_or(0) as usize) % n);
+        which.dedup();
+        let mut probes = Vec::new();
+        for i in which {
+            let inst = &self.insts[i];
+            let nested = inst.tl.with_current(|outer| {
+                let outer_seen = read_props(outer, nk);
+                let inner = match salt % 3 {
+                    0 => inst.tl_ref.with_current(|p| read_props(p, nk)),
+                    1 => inst.erased.with_current(|p| read_props(p, nk)),
+                    _ => Some(inst.tl).with_current(|p| get_props(p, nk, true)),
+                };
+                let opened = Frame::current(inst.tl).with(|p| read_props(p, nk));
+                let seen: Mutex<Value> = Mutex::new(Value::Null);
+                emit_core::emit(
+                    emit::emitter::from_fn(|evt| {
+                        *seen.lock().unwrap() = read_props(evt.props(), nk);
+                    }),
+                    emit::Empty,
+                    inst.tl_ref,
+                    emit::Empty,
+                    emit::Event::new(emit::Path::new_raw("vh"), emit::Template::literal("nested"), emit::Empty, emit::Empty),
+                );
+                json!({"outer": outer_seen, "inner": inner, "opened inside": opened, "event inside": seen.into_inner().unwrap()})
+            });
+            let _ = catching(|| {
+                if salt % 2 == 0 {
+                    inst.tl.with_current(|_| panic!("probe"))
+                } else {
+                    inst.erased.with_current(|_| panic!("probe"))
+                }
+            });
+            let after = inst.tl.with_current(|p| read_props(p, nk));
+            probes.push(json!({"inst": i, "nested": nested, "after a caught panic in with_current": after}));
+        }
+        json!({"obs": self.observe(), "probes": probes})
+    }
 }
 
 fn main() {
@@ -433,11 +501,31 @@ fn main() {
                     return Some(json!({"what": "Frame::with shows other properties than the frame's",
                         "detail": {"want": step["sees"], "got": rep["sees"]}}));
                 }
+                if op == "with" && rep["sees_after_panic"] != step["sees"] {
+                    return Some(json!({"what": "a panic caught inside a Frame::with callback changed the frame's properties",
+                        "detail": {"want": step["sees"], "got": rep["sees_after_panic"]}}));
+                }
                 for (t, o) in obs.iter().enumerate() {
                     if o.get("panicked").is_some() {
                         return Some(json!({"what": "panic while observing", "detail": o}));
                     }
                     let want = &step["exp"][t];
+                    // the acting thread also reports probes taken from inside callbacks
+                    for pr in o.get("probes").and_then(|p| p.as_array()).map(|a| a.as_slice()).unwrap_or(&[]) {
+                        let i = pr["inst"].as_u64().unwrap_or(0) as usize;
+                        for (k, v) in pr["nested"].as_object().into_iter().flatten() {
+                            if *v != want[i] {
+                                return Some(json!({"what": "ambient properties observed inside a with_current callback differ from the innermost active frame's",
+                                    "detail": {"thread": t + 1, "instance": i + 1, "via": k, "want": want[i], "got": v}}));
+                            }
+                        }
+                        let after = &pr["after a caught panic in with_current"];
+                        if *after != want[i] {
+                            return Some(json!({"what": "a panic caught inside a with_current callback changed the ambient properties",
+                                "detail": {"thread": t + 1, "instance": i + 1, "want": want[i], "got": after}}));
+                        }
+                    }
+                    let o = o.get("obs").unwrap_or(o);
                     for (i, io) in o.as_array().map(|a| a.as_slice()).unwrap_or(&[]).iter().enumerate() {
                         for via in ["enum", "get", "evt"] {
                             if io[via] != want[i] {
